@@ -1,6 +1,6 @@
 (* C05 model, part 5: public calls, their results, and running a history.  Definitions only. *)
 From Coq Require Import ZArith List Bool Arith.
-From VF Require Import Circ.Moments Circ.Placement Circ.Insert.
+From VF Require Import Circ.Moments Circ.Placement Circ.Insert Circ.BatchEdit.
 Import ListNotations.
 Open Scope Z_scope.
 
@@ -8,54 +8,187 @@ Inductive call :=
   (* construction: the result replaces the current circuit *)
   | CEmpty                                             (* Circuit() *)
   | CNew (its : list item) (s : strategy)              (* Circuit(items, strategy=s) *)
-  | CCopy                                              (* c.copy() *)
+  | CCopy                                              (* c.copy(), c.freeze().unfreeze(), c.unfreeze() *)
   | CWithTags                                          (* c.with_tags('t') *)
+  | CSlice (a b : option Z)                            (* c[a:b] *)
+  | CAdd (its : list item)                             (* c + tree (tree may be another circuit) *)
+  | CRAdd (its : list item)                            (* tree + c *)
+  | CMul (n : Z)                                       (* c * n, n * c *)
+  | CInv                                               (* c ** -1 *)
+  | CTransform (f : fmap)                              (* c.transform_qubits(dict) *)
+  | CZip (others : list (list moment)) (a : alignment)
+  | CConcatRagged (others : list (list moment)) (a : alignment)
   (* mutators *)
   | CInsert (index : Z) (its : list item) (s : strategy)
-  | CAppend (its : list item) (s : strategy)
+  | CAppend (its : list item) (s : strategy)           (* append, += *)
+  | CInsertIntoRange (its : list item) (s e : Z)
+  | CInsertAtFrontier (its : list item) (start : Z) (f : fmap)
+  | CBatchRemove (rs : list (Z * opd))
+  | CBatchReplace (rs : list (Z * opd * opd))
+  | CBatchInsertInto (rs : list (Z * list opd))
+  | CBatchInsert (ins : list (Z * list item))
+  | CClear (qubits : list Z) (idxs : list Z)
+  | CSetItem (i : Z) (m : moment)
+  | CSetSlice (a b : option Z) (ms : list moment)
+  | CDelItem (i : Z)
+  | CDelSlice (a b : option Z)
+  | CIMul (n : Z)
   (* queries *)
   | QAllQubits
   | QFreeze
-  | QLen.
+  | QLen
+  | QIsMeasurement
+  | QIsParameterized
+  | QParameterNames
+  | QKeys                                              (* all_measurement_key_objs *)
+  | QNext (qubits : list Z) (start : Z) (maxd : option Z)
+  | QPrev (qubits : list Z) (e : option Z) (maxd : option Z)
+  | QEarliestAvailable (o : opd) (e : option Z)
+  | QOperationAt (q : Z) (i : Z).
 
 Inductive res :=
   | RNone
   | RInt (z : Z)
   | RErr (e : err)
   | RSet (l : list Z)
-  | RMoms (l : list (list Z)).
+  | RMoms (l : list (list Z))
+  | RBool (b : bool)
+  | ROpt (o : option Z)
+  | RFront (f : fmap).
 
 Definition res_of (r : Z + err) : res := match r with inl z => RInt z | inr e => RErr e end.
 Definition unit_res (r : Z + err) : res := match r with inl _ => RNone | inr e => RErr e end.
 Definition uid_moms (ms : list moment) : list (list Z) := map (map uid) ms.
 
-(* the five summaries; a query returns the cached value when there is one *)
+(* ---- queries ---- *)
 Definition all_qubits_of (ms : list moment) : list Z := dedup (flat_map mqubits ms).
+Definition is_measurement_of (ms : list moment) : bool := existsb (existsb (fun o => nonempty (mk o))) ms.
+Definition is_parameterized_of (ms : list moment) : bool := existsb (existsb (fun o => nonempty (pn o))) ms.
+Definition parameter_names_of (ms : list moment) : list Z := dedup (flat_map (flat_map pn) ms).
+Definition keys_of (ms : list moment) : list Z := dedup (flat_map mmkeys ms).
+
+(* first index in [lo, hi) whose moment operates on the qubits *)
+Fixpoint first_on (ms : list moment) (qubits : list Z) (i : nat) (n : nat) : option Z :=
+  match n with
+  | O => None
+  | S n' => match nth_error ms i with
+            | Some m => if operates_on m qubits then Some (Z.of_nat i) else first_on ms qubits (S i) n'
+            | None => None
+            end
+  end.
+(* AbstractCircuit.next_moment_operating_on(qubits, start, max_distance) *)
+Definition next_moment_operating_on (ms : list moment) (qubits : list Z) (start : Z) (maxd : option Z) : option Z + err :=
+  let n := Z.of_nat (length ms) in
+  let mcd := n - start in
+  match (match maxd with
+         | None => inl mcd
+         | Some d => if d <? 0 then inr ValueError else inl (Z.min d mcd)
+         end) with
+  | inr e => inr e
+  | inl d =>
+      let lo := Z.max start 0 in
+      let hi := Z.min (start + d) n in
+      inl (first_on ms qubits (Z.to_nat lo) (Z.to_nat (hi - lo)))
+  end.
+(* last index in [lo, hi) whose moment operates on the qubits, scanning downwards from hi - 1 *)
+Fixpoint last_on (ms : list moment) (qubits : list Z) (hi : nat) (n : nat) : option Z :=
+  match n, hi with
+  | S n', S i => match nth_error ms i with
+                 | Some m => if operates_on m qubits then Some (Z.of_nat i) else last_on ms qubits i n'
+                 | None => last_on ms qubits i n'
+                 end
+  | _, _ => None
+  end.
+(* AbstractCircuit.prev_moment_operating_on(qubits, end_moment_index, max_distance) *)
+Definition prev_moment_operating_on (ms : list moment) (qubits : list Z) (e : option Z) (maxd : option Z) : option Z + err :=
+  let n := Z.of_nat (length ms) in
+  let e0 := match e with None => n | Some z => z end in
+  match (match maxd with
+         | None => inl n
+         | Some d => if d <? 0 then inr ValueError else inl (Z.min e0 d)
+         end) with
+  | inr er => inr er
+  | inl d0 =>
+      let '(e1, d1) := if n <? e0 then (n, d0 - (e0 - n)) else (e0, d0) in
+      if d1 <=? 0 then inl None
+      else (* indices e1 - 1, e1 - 2, ..., e1 - d1; only 0 <= index < n can match *)
+        inl (last_on ms qubits (Z.to_nat e1) (Z.to_nat (Z.min d1 e1)))
+  end.
+
+Definition set_qubits (s : sums) v := mksums v (s_frozen s) (s_ismeas s) (s_isparam s) (s_pnames s).
+Definition set_frozen (s : sums) v := mksums (s_qubits s) v (s_ismeas s) (s_isparam s) (s_pnames s).
+Definition set_ismeas (s : sums) v := mksums (s_qubits s) (s_frozen s) v (s_isparam s) (s_pnames s).
+Definition set_isparam (s : sums) v := mksums (s_qubits s) (s_frozen s) (s_ismeas s) v (s_pnames s).
+Definition set_pnames (s : sums) v := mksums (s_qubits s) (s_frozen s) (s_ismeas s) (s_isparam s) v.
+
+(* a lazily cached query: return the stored value when there is one, else compute and store *)
+Definition cached {A} (c : cstate) (get : sums -> option A) (put : sums -> option A -> sums)
+           (compute : list moment -> A) (wrap : A -> res) : cstate * res :=
+  match get (sm c) with
+  | Some v => (c, wrap v)
+  | None => let v := compute (moms c) in (mkc (moms c) (cache c) (put (sm c) (Some v)), wrap v)
+  end.
+
+Definition replace_with (c : cstate) (r : cstate * (Z + err)) : cstate * res :=
+  match r with
+  | (c', inl _) => (c', RNone)
+  | (_, inr e) => (c, RErr e)                    (* the expression raised: the variable keeps the old circuit *)
+  end.
 
 Definition step (c : cstate) (x : call) : cstate * res :=
   match x with
   | CEmpty => (empty_circuit, RNone)
-  | CNew its s => match construct its s with
-                  | (c', inl _) => (c', RNone)
-                  | (_, inr e) => (c, RErr e)            (* the constructor raised: no new object *)
-                  end
+  | CNew its s => replace_with c (construct its s)
   | CCopy => (from_moments (moms c), RNone)
   | CWithTags => (mkc (moms c) (Some empty_cache) no_sums, RNone)   (* Circuit(tags=...) then _moments[:] = ... *)
+  | CSlice a b => let '(s, e) := slice_range a b (length (moms c)) in
+                  (from_moments (firstn (e - s) (skipn s (moms c))), RNone)
+  | CAdd its => replace_with c (add c its)
+  | CRAdd its => replace_with c (radd c its)
+  | CMul n => (mul c n, RNone)
+  | CInv => replace_with c (inverse c)
+  | CTransform f => replace_with c (transform_qubits c f)
+  | CZip others a => replace_with c (zip c others a)
+  | CConcatRagged others a => replace_with c (concat_ragged c others a)
   | CInsert i its s => let '(c', r) := insert c i its s in (c', res_of r)
   | CAppend its s => let '(c', r) := append c its s in (c', unit_res r)
-  | QAllQubits =>
-      match s_qubits (sm c) with
-      | Some l => (c, RSet l)
-      | None => let l := all_qubits_of (moms c) in
-                (mkc (moms c) (cache c) (mksums (Some l) (s_frozen (sm c)) (s_ismeas (sm c)) (s_isparam (sm c)) (s_pnames (sm c))), RSet l)
+  | CInsertIntoRange its s e => let '(c', r) := insert_into_range c its s e in (c', res_of r)
+  | CInsertAtFrontier its start f =>
+      match insert_at_frontier c its start f with
+      | (c', inl f') => (c', RFront f')
+      | (c', inr e) => (c', RErr e)
       end
-  | QFreeze =>
-      match s_frozen (sm c) with
-      | Some ms => (c, RMoms (uid_moms ms))
-      | None => (mkc (moms c) (cache c) (mksums (s_qubits (sm c)) (Some (moms c)) (s_ismeas (sm c)) (s_isparam (sm c)) (s_pnames (sm c))),
-                 RMoms (uid_moms (moms c)))
-      end
+  | CBatchRemove rs => let '(c', r) := batch_remove c rs in (c', unit_res r)
+  | CBatchReplace rs => let '(c', r) := batch_replace c rs in (c', unit_res r)
+  | CBatchInsertInto rs => let '(c', r) := batch_insert_into c rs in (c', unit_res r)
+  | CBatchInsert ins => let '(c', r) := batch_insert c ins in (c', unit_res r)
+  | CClear qubits idxs => let '(c', r) := clear_touching c qubits idxs in (c', unit_res r)
+  | CSetItem i m => let '(c', r) := setitem c i m in (c', unit_res r)
+  | CSetSlice a b ms => let '(c', r) := setslice c a b ms in (c', unit_res r)
+  | CDelItem i => let '(c', r) := delitem c i in (c', unit_res r)
+  | CDelSlice a b => let '(c', r) := delslice c a b in (c', unit_res r)
+  | CIMul n => (imul c n, RNone)
+  | QAllQubits => cached c s_qubits set_qubits all_qubits_of RSet
+  | QFreeze => cached c s_frozen set_frozen (fun ms => ms) (fun ms => RMoms (uid_moms ms))
   | QLen => (c, RInt (Z.of_nat (length (moms c))))
+  | QIsMeasurement => cached c s_ismeas set_ismeas is_measurement_of RBool
+  | QIsParameterized => cached c s_isparam set_isparam is_parameterized_of RBool
+  | QParameterNames => cached c s_pnames set_pnames parameter_names_of RSet
+  | QKeys => (c, RSet (keys_of (moms c)))
+  | QNext qubits start maxd =>
+      (c, match next_moment_operating_on (moms c) qubits start maxd with inl o => ROpt o | inr e => RErr e end)
+  | QPrev qubits e maxd =>
+      (c, match prev_moment_operating_on (moms c) qubits e maxd with inl o => ROpt o | inr e => RErr e end)
+  | QEarliestAvailable o e =>
+      (c, RInt (Z.of_nat (earliest_available_moment (moms c) o
+                            (match e with None => length (moms c) | Some z => Z.to_nat z end))))
+  | QOperationAt q i =>
+      (c, ROpt (if (0 <=? i) && (i <? Z.of_nat (length (moms c)))
+                then match find (fun o => memz q (qs o)) (nth (Z.to_nat i) (moms c) []) with
+                     | Some o => Some (uid o)
+                     | None => None
+                     end
+                else None))
   end.
 
 (* run a history from Circuit(); the trace records, after every call, the result and the moments *)
@@ -70,6 +203,14 @@ Fixpoint trace (c : cstate) (h : list call) : list (res * list (list Z)) :=
 (* operands are objects Cirq accepted: Operation (distinct qubits) and Moment (disjoint operations) *)
 Definition call_wf (x : call) : Prop :=
   match x with
-  | CNew its _ | CInsert _ its _ | CAppend its _ => Forall item_wf its
+  | CNew its _ | CInsert _ its _ | CAppend its _ | CAdd its | CRAdd its
+  | CInsertIntoRange its _ _ | CInsertAtFrontier its _ _ => Forall item_wf its
+  | CZip others _ | CConcatRagged others _ => Forall wf others
+  | CBatchRemove _ => True
+  | CBatchReplace rs => Forall (fun r => op_wf (snd r)) rs
+  | CBatchInsertInto rs => Forall (fun r => Forall op_wf (snd r)) rs
+  | CBatchInsert ins => Forall (fun r => Forall item_wf (snd r)) ins
+  | CSetItem _ m => moment_wf m
+  | CSetSlice _ _ ms => wf ms
   | _ => True
   end.
